@@ -9,10 +9,10 @@ fault="${1:-none}"; flavor="${2:-plain}"; second="${3:-healthy}"
 root=$(cd "$verif" && /usr/bin/python3 -c "from nlv import build; print(build.get('$flavor').root)") || exit 2
 d=$(mktemp -d /var/tmp/nlv-c16-XXXXXX); trap 'rm -rf "$d"' EXIT
 mkdir "$d/bin" && ln -s "$verif/tools/fake_nano_cop.py" "$d/bin/nano_cop"
-"$root/bin/nano_virt" "$here/prog.nano" --emit-nvm -o "$d/prog.nvm" >/dev/null || exit 2
+ASAN_OPTIONS=detect_leaks=0 "$root/bin/nano_virt" "$here/prog.nano" --emit-nvm -o "$d/prog.nvm" >/dev/null || exit 2
 cd "$d"
 env -i PATH="$d/bin:/usr/bin:/bin" NLVERIF_COP_FAULT="$fault" NLVERIF_COP_SECOND="$second" NLVERIF_COP_TABLE="$here/table.json" \
-    NLVERIF_COP_LOG="$d/cop.log" ASAN_OPTIONS=detect_leaks=0:exitcode=97 \
+    NLVERIF_COP_LOG="$d/cop.log" ASAN_OPTIONS=detect_leaks=0:exitcode=97:allocator_may_return_null=1 UBSAN_OPTIONS=print_stacktrace=1:halt_on_error=1:exitcode=97 \
     "$root/bin/nano_vm" --isolate-ffi "$d/prog.nvm" >"$d/out" 2>"$d/err"
 rc=$?
 echo "exit status: $rc $( [ $rc -gt 128 ] && echo "(signal $((rc-128)): $(kill -l $((rc-128))))")"
